@@ -420,6 +420,9 @@ def parse_rvalue(s, fn, dst_ty):
         sc = split_call(s)
         if sc and re.match(r'^[\w:<>&\'\[\], ()*;]+$', sc[0]) and '::' in sc[0]:
             return ('adt_tuple', sc[0].strip(), [parse_operand(x) for x in split_top(sc[1])])
+    if dst_ty and re.fullmatch(r'[\w:<>]+', s) and re.match(r'^(for<[^>]*> )?fn\(.*\{.*\}$', dst_ty.strip(), re.S):
+        # a function item assigned to a local of fn-item type (`_1 = mode::is_char_device;`)
+        return ('use', ('const', ('fnitem', s)))
     if re.match(r'^[\w:<>&\'\[\], ()*;]+$', s) and ('::' in s or s[:1].isupper()):
         if '::' not in s and dst_ty and re.match(r'^[\w:]+$', dst_ty.strip()):
             # a bare (imported) variant name: qualify it with the declared type of the destination
